@@ -35,6 +35,8 @@ mod k_cache;
 mod k_disc;
 #[cfg(feature = "k_valid")]
 mod k_valid;
+#[cfg(feature = "k_comp")]
+mod k_comp;
 
 pub type OpResult = Result<Value, String>;
 
@@ -65,6 +67,8 @@ fn dispatch(op: &str, input: &mut Value) -> OpResult {
     "cache" | "share" => k_cache::eval(op, input),
     #[cfg(feature = "k_valid")]
     "valid" => k_valid::eval(op, input),
+    #[cfg(feature = "k_comp")]
+    "comp" => k_comp::eval(op, input),
     _ => Err(format!("unknown-op:{op}")),
   }
 }
